@@ -249,7 +249,7 @@ def run(ctx):
               'recorder replacing cassandra.cqlengine.connection.execute / get_cluster (protocol 4)')
     ctx.assume('an overriding key column repeats its partition_key flag', 'no batch, no polymorphic model')
     rng = ctx.rng
-    nmodels = 150 if ctx.tier == 'quick' else 2500
+    nmodels = 150 if ctx.tier == 'quick' else 1500
     items = []
     corpus = os.path.join(core.VERIF, 'corpus', 'C38')
     if os.path.isdir(corpus):
